@@ -26,6 +26,18 @@ type LoopContract struct {
 	Unroll     int
 }
 
+// lockinv <mutex> protects [name:] <expr>: the invariant of the state a mutex protects (M1, checked per function):
+// assumed whenever this function acquires the mutex, an obligation whenever it releases it.
+//
+// lockowns <mutex> grants [name:] <expr>: a fact about the protected state that follows from a resource this goroutine
+// holds (a counting-permission argument that is not machine-checked): assumed on acquiring the mutex, never checked;
+// every such clause is listed among the assumptions of the evidence.
+type LockInv struct {
+	Mu         Expr
+	Clause     *Clause
+	AssumeOnly bool
+}
+
 type CallSpec struct {
 	Callee string // function key (or suffix pattern) of the callee
 	Clause *Clause
@@ -43,6 +55,7 @@ type FnContract struct {
 	ModTypes []string // "modifies types ...": fields of objects of these struct types, and maps
 	Loops    map[int]*LoopContract
 	Calls    []CallSpec
+	LockInvs []LockInv
 	Counts   []*Clause // postconditions over count(...) — same as ensures but kept apart for naming
 	PanicsIf []*Clause
 	Ghost    []GhostAssign
@@ -78,7 +91,7 @@ type GlobalSpecs struct {
 }
 
 var clauseKw = map[string]bool{"func": true, "arith": true, "trusted": true, "pure": true, "requires": true, "ensures": true, "modifies": true, "loop": true,
-	"invariant": true, "callsite": true, "lemma": true, "axiom": true, "inline": true, "panics": true, "option": true, "unroll": true, "callers": true, "stores": true, "spec": true, "ghost": true}
+	"invariant": true, "callsite": true, "lemma": true, "axiom": true, "inline": true, "panics": true, "option": true, "unroll": true, "callers": true, "stores": true, "spec": true, "ghost": true, "lockinv": true, "lockowns": true}
 
 var nameRe = regexp.MustCompile(`^([A-Za-z_][A-Za-z0-9_\-]*):\s+(.*)$`)
 
@@ -351,6 +364,24 @@ func (w *World) readContractFile(path string) error {
 				return err
 			}
 			curLoop.Invariants = append(curLoop.Invariants, c)
+		case "lockinv", "lockowns":
+			sep := " protects "
+			if l.kw == "lockowns" {
+				sep = " grants "
+			}
+			parts := strings.SplitN(l.rest, sep, 2)
+			if len(parts) != 2 {
+				return fmt.Errorf("line %d: %s <mutex>%s[name:] expr", l.line, l.kw, sep)
+			}
+			mu, err := ParseExpr(strings.TrimSpace(parts[0]))
+			if err != nil {
+				return fmt.Errorf("line %d: %v", l.line, err)
+			}
+			c, err := mk(rawLine{l.kw, parts[1], l.line}, true)
+			if err != nil {
+				return err
+			}
+			cur.LockInvs = append(cur.LockInvs, LockInv{Mu: mu, Clause: c, AssumeOnly: l.kw == "lockowns"})
 		case "callsite":
 			parts := strings.SplitN(l.rest, " ", 2)
 			if len(parts) != 2 {
